@@ -7,5 +7,6 @@ pub mod util;
 pub mod c17;
 pub mod model;
 pub mod trie;
+pub mod strie;
 pub mod c05;
 pub mod selftest;
